@@ -16,9 +16,9 @@ CLAIMED = {
   note="Trusted: Coq kernel; hand-written model of layout.rs / PixelInfo::surface_bytes / get_mipmap_size (agreement with the code checked by differential execution, not proved); header fields are u32 / NonZeroU32 as the Rust types guarantee; usize = 64 bit.",
   tech="Coq proof (induction over mip levels, lia/nia) + model-vs-implementation differential execution"),
  "C08": dict(
-  text="Coq refinement theorem: for every header yielding a texture, array, cube map, cube array or partial cube map and EVERY operation sequence (unbounded length, 7 operation kinds incl. cube reads with wrong-size variants), the modelled Decoder never panics and proceeds in lock step with a cursor over C02's flattened surface list: same verdict, same next surface (size, length, level), same reader position, rejected calls move nothing, cube reads write exactly the predicted cells; I/O refusals need a data section above i64::MAX. Volumes (VolumeSurfaceIterator) are covered by the differential check only. Model tied to src/iter.rs + src/decoder.rs by exhaustive depth-4 (thorough: depth-6) operation sequences on 22 layouts plus random deep sequences, compared after every call.",
+  text="Coq refinement theorem: for every header yielding a layout (texture, array, cube map, cube array, partial cube map, volume) and EVERY operation sequence (unbounded length, 7 operation kinds incl. cube reads with wrong-size variants), the modelled Decoder never panics and proceeds in lock step with a cursor over C02's flattened surface list: same verdict, same next surface (size, length, level), same reader position, rejected calls move nothing, cube reads write exactly the predicted cells; I/O refusals need a data section above i64::MAX. The same theorem is proved for volumes (VolumeSurfaceIterator, cursor = (level, depth)). Model tied to src/iter.rs + src/decoder.rs by exhaustive depth-4 (thorough: depth-6) operation sequences on 22 layouts plus random deep sequences, compared after every call.",
   ref="DESIGN.md §6 C08",
-  note="Partial: the refinement proof covers TextureSurfaceIterator layouts; the volume iterator is modelled and compared against the implementation but its refinement is stated (C08_volume_partial_statement), not proved. The decode call inside read_surface is abstracted to 'consumes exactly the surface length' (C06). Trusted: Coq kernel; hand-written model of iter.rs/decoder.rs tied by differential execution; in-memory cursor semantics of Seek.",
+  note="The decode call inside read_surface is abstracted to 'consumes exactly the surface length' (C06). Trusted: Coq kernel; hand-written model of iter.rs/decoder.rs tied by differential execution; in-memory cursor semantics of Seek.",
   tech="Coq proof (simulation by induction over the operation list) + model-vs-implementation differential execution of operation sequences"),
  "C06": dict(
   text="Coq theorems about the I/O script of every decode entry (full / rect, pixel / block / bi-planar families, fast paths, empty rects), for every pixel-info shape with block dims 1..15, every surface size, rectangle, memory limit and reader state: a successful decode moves the reader by exactly the surface's encoded length (the C02 rule); a decode refused with a non-I/O error (memory limit, rect out of bounds) leaves the reader untouched because every allocation precedes the first reader effect; a run is Ok only if every read was served in full. The scripts are tied to src/decode/{mod,decoder,read_write}.rs by differential execution: for 73 formats x sizes x rects x colours x memory limits x reader behaviours x faults the observed verdict, position, coalesced skip/read amounts and heap request sizes equal the model's.",
@@ -30,6 +30,16 @@ CLAIMED = {
   ref="DESIGN.md §6 C07",
   note="Partial in one respect: the claim that ONLY budgeted sites allocate is checked on the implementation (peak live bytes <= limit + 4 KiB, < 4 KiB of small requests, request list equal to the model's), not proved; astc-decode / std internals are runtime. Trusted: Coq kernel; script model tied by differential execution; allocator rounding is the runtime's.",
   tech="Coq proof (budget invariant over effect scripts; finite table theorem by vm_compute) + counting-allocator differential execution"),
+ "C11": dict(
+  text="Coq refinement theorem: for every header that yields a layout (textures, arrays, cube maps, partial cubes, volumes), every header length, size multiple and EVERY call sequence (unbounded) of write (right / wrong size / already cancelled), toggle-generation and finish, the modelled Encoder never panics, returns exactly the verdict of a cursor over C02's flattened surface list (TooManySurfaces iff at the end, MissingSurfaces from finish iff not at the end, refusals exactly for refused calls), after every call - also a failed one - has written header + layout offset of the surface it reports as next, a call that does not move the cursor changes nothing, generation passes the remaining levels of the current texture (stopping AT the first level the format refuses), volumes never get generated mipmaps. Model tied to src/encoder.rs + src/iter.rs by exhaustive depth-4 (thorough: 6) call sequences on 14 layouts x 6 formats plus random deep sequences, compared after every call.",
+  ref="DESIGN.md §6 C11",
+  note="The encode call is abstracted (refused before the first byte, or writes exactly the layout length): that abstraction is checked on the implementation after every call, not proved. Cancellation during a write and writer I/O errors are outside the property. Trusted: Coq kernel; hand-written model tied by differential execution.",
+  tech="Coq proof (simulation by induction over the call list, reusing the C08 iterator refinement) + differential execution of call sequences"),
+ "C10": dict(
+  text="Coq theorems: whenever the modelled Encoder is at the end of the layout - the only state in which finish succeeds (C11) - it has written exactly header length + the layout's data length; every accepted surface advances the byte count by exactly its layout length; the data length is the end of the last surface of C02's tiling. The check runs the real Encoder over 14 layouts x 6 formats x sizes 1..70 x mip settings x generation toggles x parallel on/off, compares the byte count after every call with the model and re-opens every finished file (same header, format, layout; every surface decodes; EOF at the end of the last surface).",
+  ref="DESIGN.md §6 C10",
+  note="Partial: that the file re-reads to the same header/format/layout and that every surface decodes are implementation-only oracles here (the header round trip is C09's theorem, pixel content C03-C05/C12); the length accounting is proved on the model and compared call by call. Only RGBA_U8 input at quality Fast is fed here; the other input colours / qualities / dithering are exercised by C12-C15.",
+  tech="Coq proof (corollaries of the C11 invariant and C02 tiling) + differential execution with re-opening of every finished file"),
 }
 WIP = "check not built yet (work in progress, see DESIGN.md §10 staging); proof applies and is planned"
 
